@@ -202,7 +202,7 @@ class Ctx:
         name = label or os.path.basename(cfg)
         rec = {"module": module, "cfg": cfg, "states_generated": r["states"], "distinct_states": r["distinct"],
                "wall_s": round(r["wall"], 1), "violated": r["violated"]}
-        acts = {k: v[0] for k, v in r["coverage"].items() if k[0].isupper()}
+        acts = {k: v[1] for k, v in r["coverage"].items() if k[0].isupper()}
         never = sorted(k for k, v in acts.items() if v == 0)
         rec["actions_never_taken"] = never
         self.cov["models"].append(rec)
@@ -222,7 +222,7 @@ class Ctx:
 
     # -- harness + monitor -------------------------------------------------------------
     def sim(self, family, n, monitor, cfg, seed_off=0, batch=400, extra_args=None, nontrivial=None, scenarios_file=None,
-            package="vh", subcmd="sim", par=6, conf=None):
+            package="vh", subcmd="sim", par=6, conf=None, env=None):
         """Run `n` scenarios of a family through the real code, then validate the log(s) with the monitor."""
         binp = self.bin(package)
         seed = self.seed + seed_off
@@ -248,7 +248,8 @@ class Ctx:
 
         def one(job):
             cmd, logp, stats, scs = job
-            r = subprocess.run(cmd, stdout=subprocess.PIPE, stderr=subprocess.STDOUT, text=True, timeout=3000)
+            r = subprocess.run(cmd, stdout=subprocess.PIPE, stderr=subprocess.STDOUT, text=True, timeout=3000,
+                               env=dict(os.environ, **env) if env else None)
             if r.returncode != 0:
                 raise ToolError("harness failed: %s\n%s" % (" ".join(cmd), r.stdout[-3000:]))
             tag = "%s-%s-%s" % (self.prop, family, os.path.basename(logp).split(".")[0])
